@@ -30,6 +30,8 @@ THEOREMS = [
     "Pydjinni.Front.registerAll_ok_iff",
     "Pydjinni.Front.registerAll_error_dup",
     "Pydjinni.Front.resolveStep_binds_lexical",
+    "Pydjinni.Front.resolveStep_spec",
+    "Pydjinni.Front.resolveLoop_spec",
 ]
 LEVEL = "proof"
 
